@@ -155,7 +155,18 @@ pub mod novasmt {
         pub fn insert(&mut self, key: [u8; 32], value: &[u8]) ensures final(self)@ == old(self)@.insert(key@, value@) { unimplemented!() }
         #[verifier::external_body]
         pub fn root_hash(&self) -> (r: [u8; 32]) ensures r == root_of(self@) { unimplemented!() }
+        /// iter(): every non-empty entry exactly once (in an unspecified order); count(): how many there are
+        #[verifier::external_body]
+        pub fn iter(&self) -> (r: Vec<([u8; 32], Vec<u8>)>)
+            ensures r@.len() == entry_count(self@),
+                    forall|i: int| 0 <= i < r@.len() ==> (#[trigger] r@[i]).1@.len() > 0 && self@[r@[i].0@] == r@[i].1@,
+                    forall|i: int, j: int| 0 <= i < j < r@.len() ==> (#[trigger] r@[i]).0@ != (#[trigger] r@[j]).0@,
+                    forall|k: Seq<u8>| self@[k].len() > 0 ==> exists|i: int| 0 <= i < r@.len() && (#[trigger] r@[i]).0@ == k
+        { unimplemented!() }
+        #[verifier::external_body]
+        pub fn count(&self) -> (r: usize) ensures r == entry_count(self@) { unimplemented!() }
     }
+    pub uninterp spec fn entry_count(m: IMap<Seq<u8>, Seq<u8>>) -> nat;
     pub use super::novasmt_db::Database;
     /// every tree view is total (absent keys read as the empty string)
     pub broadcast axiom fn axiom_tree_total<C: ContentAddrStore>(t: Tree<C>, k: Seq<u8>) ensures #[trigger] t@.contains_key(k);
